@@ -248,6 +248,7 @@ def strategy(tier):
         "prefix": st.lists(st.sampled_from(sorted(PREFIX)), max_size=4),
         "op": st.sampled_from(sorted(OPS)),
         "follow": st.lists(st.sampled_from(sorted(FOLLOW)), min_size=1, max_size=5),
+        "default_handler": st.booleans(),
     })
 
 
@@ -301,7 +302,18 @@ def run(case, ctx):
     old_mgr = get_global_adaptation_manager()
     set_global_adaptation_manager(mgr)
     opush(handler=lambda ev: None, reraise_exceptions=False)
-    push_exception_handler(handler=lambda *a: None, reraise_exceptions=False, main=True)
+    # half of the cases run under the library's DEFAULT handler for on_trait_change / static handlers (which logs the
+    # exception; the 'traits' logger is silenced), the other half under a quiet handler of ours
+    import logging
+    lg = logging.getLogger("traits")
+    if not lg.handlers:
+        lg.addHandler(logging.NullHandler())
+    lg.propagate = False
+    own_handler = not case.get("default_handler")
+    if own_handler:
+        push_exception_handler(handler=lambda *a: None, reraise_exceptions=False, main=True)
+    else:
+        ctx.label("library-default-exception-handler")
     ctx.evaluations -= 1
     try:
         pre0, post0, err0, sites0, log0, fol0, end0 = run_with(case, None, None)
@@ -382,7 +394,8 @@ def run(case, ctx):
                     ctx.fail("metamorphic/exception-type", "op %r callback #%d (%s): raising %s leaves post/follow-up/end %r, raising "
                              "TraitError leaves %r" % (opname, k, site, exc_name, (diff(ref[0], got[0]), got[1], diff(ref[2], got[2])), ref[1]))
     finally:
-        pop_exception_handler()
+        if own_handler:
+            pop_exception_handler()
         opop()
         set_global_adaptation_manager(old_mgr)
         OPS.pop("__noop__", None)
